@@ -1,6 +1,7 @@
 package main
 
 import (
+	"time"
 	"fmt"
 	"go/constant"
 	"go/token"
@@ -216,6 +217,13 @@ func (f *unitFrame) compute(v ssa.Value) unit {
 		case token.MUL:
 			return mulUnit(a, b, +1)
 		case token.QUO:
+			// integer rescaling of a duration (d / time.Minute) truncates: what follows no longer sees the
+			// sub-unit part, and a short duration becomes zero
+			if c, ok := x.Y.(*ssa.Const); ok && isDurationType(c.Type()) && c.Value != nil && a.same(uNs) && !a.poly && !a.unknown {
+				if v, exact := constant.Int64Val(c.Value); exact && v > 1 {
+					f.e.issue(x.Pos(), "a duration is cut down to whole multiples of %s by integer division before it is used", time.Duration(v))
+				}
+			}
 			return mulUnit(a, b, -1)
 		case token.REM:
 			f.additive(x.Pos(), "'%'", a, b)
@@ -382,7 +390,7 @@ func unitsRule(w *World, r *Report, rule string, fn *ssa.Function, what string) 
 		for _, is := range e.issues {
 			msgs = append(msgs, w.Pos(is.Pos)+": "+is.What)
 		}
-		r.Bad(rule, construct, w.Pos(e.issues[0].Pos), "time scales are mixed: "+strings.Join(msgs, "; "))
+		r.Bad(rule, construct, w.Pos(e.issues[0].Pos), "units of time are misused: "+strings.Join(msgs, "; "))
 	case u.unknown:
 		r.Unk(rule, construct, pos, "the unit of the result could not be derived")
 	case !u.poly && !u.same(uOne):
